@@ -118,7 +118,11 @@ CLAIMED = {
         "subset, per-output save policies and the request, and transcribes the check_cache recursion of get_components; TLC checks "
         "transcription = definition (and PartialSavesNothing, Minimal, OneOrigin) on every request of the scope and prints the "
         "expected sets; the harness compares them with the real get_components result and with a real run (compute-call counters "
-        "per plugin, storage directory before / after, one saver per writable frontend).",
+        "per plugin, storage directory before / after, one saver per writable frontend). A second family of cases covers two "
+        "storage frontends with read-only / take_only / exclude filters and independent contents: the spec defines which frontend a "
+        "loaded type comes from and which frontends a saved type goes to (P-level) and transcribes the loops of "
+        "_get_partial_loader_for / _add_saver; the harness compares loader origins, savers per frontend and each directory's "
+        "contents after a real run.",
    note="Trusted: TLC; stored subsets prepared by copying data made under an all-ALWAYS policy. Scope: chain, multi-output and diamond "
         "graphs of <=4 types, 9 policy assignments, all stored subsets x targets x save= x 6 modifiers x forbid settings "
         "(quick tier executes a seeded sample of the enumerated requests, thorough all).",
